@@ -42,7 +42,7 @@ META = {
     "design_ref": "DESIGN.md section 6, C25",
 }
 
-CLASS_TAGS = {"expr", "bool", "comp", "comp2", "when", "decl-eq", "elsewhen", "attr-expr", "bool-attr", "two-prefixes", "flow"}
+CLASS_TAGS = {"expr", "bool", "comp", "comp2", "when", "decl-eq", "elsewhen", "attr-expr", "bool-attr", "two-prefixes", "flow", "declit", "decimal-literal"}
 
 
 # ------------------------------------------------------------------------------------------------
@@ -125,7 +125,10 @@ def abstract(el):
 
 
 def canon(x):
-    """spec tree -> same normal form (attrs sorted)"""
+    """spec tree -> same normal form (attrs sorted); a decimal literal becomes the exact rational of its text"""
+    if x["tag"] == "real" and x["attrs"] and x["attrs"][0][0] == "dec":
+        f = Fraction(x["attrs"][0][1])
+        return {"tag": "real", "attrs": [], "num": [f.numerator, f.denominator], "kids": []}
     return {"tag": x["tag"], "attrs": sorted([list(a) for a in x["attrs"]]), "num": list(x["num"]), "kids": [canon(k) for k in x["kids"]]}
 
 
@@ -359,7 +362,7 @@ def run(ctx):
             ctx.violation(rec, {"item": it})
         if not out["recs"] and "xml_text" in out["obs"] and it["prog"]["fam"] in ("expr", "when", "bool"):
             ctx.sample({"modelica": out["obs"]["text"], "xml_equations": out["obs"]["xml_text"][out["obs"]["xml_text"].find("<equation>"):][:700]}, limit=3)
-    for t in ("expr", "bool", "comp", "comp2", "two-prefixes", "flow", "when", "decl-eq", "elsewhen", "attr-expr", "bool-attr"):
+    for t in ("expr", "bool", "comp", "comp2", "declit", "two-prefixes", "flow", "when", "decl-eq", "elsewhen", "attr-expr", "bool-attr"):
         if not by_tag.get(t):
             raise MachineryError("vacuous: no program with tag %s" % t)
     for o in ("generate", "well-formed", "component", "equation"):
